@@ -77,7 +77,7 @@ class Obj:
         return f"{self.cls}({', '.join(f'{k}={v!r}' for k, v in self.fields.items())})"
 
 
-BUILTIN_TYPES = {n: TypeV("builtin", n) for n in ("int", "float", "bool", "str", "list", "tuple", "dict", "set")}
+BUILTIN_TYPES = {n: TypeV("builtin", n) for n in ("int", "float", "bool", "str", "list", "tuple", "dict", "set", "object")}
 TYPING_UNION = Sym("typing.Union")
 TYPING_ANNOTATED = Sym("typing.Annotated")
 
@@ -200,6 +200,8 @@ class Interp:
                         env1[k] = v
                 self.prelude_len = len(self.trace)
             self.fn_stack = [fn]
+            if fn.parent is not None and isinstance(fn.node, (ast.FunctionDef, ast.AsyncFunctionDef)) and fn.name not in env1:
+                env1[fn.name] = LocalFn(fn.node, env1, fn)   # a nested function can call itself
             try:
                 rv = self.call_body(fn, env1, 0)
             except _Loop:
@@ -222,11 +224,35 @@ class Interp:
 
     # ------------------------------------------------------------------ statements
     def call_body(self, fn: FunctionInfo, env: dict, depth: int) -> Any:
+        gen = depth > 0 and _is_generator(fn.node)
+        start = len(self.trace)
+        rv = None
         try:
             self.block(fn.node.body, env, depth)
         except _Return as r:
-            return r.value
-        return None
+            rv = r.value
+        if gen:
+            return self._collect_yields(start)
+        return rv
+
+    def _collect_yields(self, start: int) -> Any:
+        """the values a generator call produced: its yield effects are removed from the trace and returned as a list"""
+        out, keep, ok = [], [], True
+        for e in self.trace[start:]:
+            if e.kind == "yield":
+                v = e.args[0]
+                if e.name == "from":
+                    if isinstance(v, list):
+                        out.extend(v)
+                    else:
+                        ok = False
+                else:
+                    out.append(v)
+            else:
+                keep.append(e)
+        del self.trace[start:]
+        self.trace.extend(keep)
+        return out if ok else UNKNOWN
 
     def block(self, stmts: list[ast.stmt], env: dict, depth: int) -> None:
         for st in stmts:
@@ -299,7 +325,10 @@ class Interp:
             self.trace.append(Effect("raise", norm(st.exc)[:40] if st.exc is not None else "", node=st))
             raise _Return(UNKNOWN)
         elif isinstance(st, ast.Assert):
-            pass
+            v = self.ev(st.test, env, depth)
+            if v is False:
+                self.trace.append(Effect("raise", "AssertionError", node=st))
+                raise _Return(UNKNOWN)
         elif isinstance(st, (ast.With, ast.AsyncWith)):
             for it in st.items:
                 v = self.ev(it.context_expr, env, depth)
@@ -467,7 +496,10 @@ class Interp:
                 return {ast.Lt: l < r, ast.LtE: l <= r, ast.Gt: l > r, ast.GtE: l >= r}[type(op)]
             if isinstance(op, (ast.In, ast.NotIn)) and isinstance(r, (list, set, dict)) and l is not UNKNOWN:
                 key = self._hashable(l) if isinstance(r, (set, dict)) else l
-                return (key in r) if isinstance(op, ast.In) else (key not in r)
+                found = key in r
+                if not found and ((isinstance(l, Sym) and l.tag.startswith("elem:")) or (isinstance(r, list) and any(x is UNKNOWN for x in r))):
+                    return UNKNOWN   # a symbolic element / a list with unknown members: membership is not decided
+                return found if isinstance(op, ast.In) else not found
             return UNKNOWN
         if isinstance(e, (ast.List, ast.Tuple)):
             out = []
@@ -512,19 +544,30 @@ class Interp:
         return UNKNOWN
 
     def comp(self, e: ast.AST, env: dict, depth: int) -> Any:
-        if len(e.generators) != 1:
-            return UNKNOWN
-        g = e.generators[0]
-        it = self.ev(g.iter, env, depth)
-        if not isinstance(it, list):
-            return UNKNOWN
-        out = []
-        sub = dict(env)
-        for x in it:
-            self.assign(g.target, x, sub, e)
-            if all(self.truthy(self.ev(c, sub, depth)) for c in g.ifs):
+        out: list = []
+        ok = [True]
+
+        def rec(i: int, sub: dict) -> None:
+            if i == len(e.generators):
                 out.append(self.ev(e.elt, sub, depth))
-        return out
+                return
+            g = e.generators[i]
+            it = self.ev(g.iter, sub, depth)
+            if isinstance(it, dict):
+                it = list(it.keys())
+            if isinstance(it, set):
+                it = sorted(it, key=repr)
+            if not isinstance(it, list):
+                ok[0] = False
+                return
+            for x in it:
+                s2 = dict(sub)
+                self.assign(g.target, x, s2, e)
+                if all(self.truthy(self.ev(c, s2, depth)) for c in g.ifs):
+                    rec(i + 1, s2)
+
+        rec(0, dict(env))
+        return out if ok[0] else UNKNOWN
 
     def call(self, c: ast.Call, env: dict, depth: int) -> Any:
         nm = call_name(c)
@@ -563,9 +606,7 @@ class Interp:
                     return [[k, v] for k, v in base.items()]
                 if nm == "get" and args:
                     return base.get(self._hashable(args[0]), args[1] if len(args) > 1 else None)
-            if isinstance(base, set) and nm == "add" and args and isinstance(c.func.value, ast.Name):
-                base.add(self._hashable(args[0]))
-                return None
+
         if isinstance(c.func, ast.Name):
             if nm in ("all", "any") and len(args) == 1 and isinstance(args[0], list):
                 vals = [self.truthy(v) for v in args[0]]
@@ -592,6 +633,8 @@ class Interp:
                 return SumVal(tuple(args[0]))
             if nm == "id" and len(args) == 1 and isinstance(args[0], Sym):
                 return "id:" + args[0].tag
+            if nm == "deque" and len(args) <= 1:
+                return list(args[0]) if args and isinstance(args[0], list) else [] if not args else UNKNOWN
             if nm in ("set", "dict") and not args:
                 return set() if nm == "set" else {}
             if nm == "set" and len(args) == 1 and isinstance(args[0], list):
@@ -660,7 +703,7 @@ class Interp:
         if isinstance(c.func, ast.Name) and c.func.id not in env and depth < self.max_depth and self.fn_stack:
             full = self.prog.resolve_name(self.fn_stack[-1].module, c.func.id)
             target = self.prog.functions.get(full) if full else None
-            if target is not None and target.cls is None and target.parent is None and target not in self.fn_stack[-3:] \
+            if target is not None and target.cls is None and target.parent is None and (target not in self.fn_stack[-3:] or self.allow_recursion) \
                     and isinstance(target.node, (ast.FunctionDef, ast.AsyncFunctionDef)):
                 a = target.node.args
                 names = [x.arg for x in a.posonlyargs + a.args]
@@ -716,9 +759,25 @@ class Interp:
                         if k.startswith("self."):
                             env[k] = v
                     return rv
-        if isinstance(c.func, ast.Attribute) and nm == "append" and isinstance(c.func.value, ast.Name) and isinstance(env.get(c.func.value.id), list) and args:
-            env[c.func.value.id] = env[c.func.value.id] + [args[0]]
-            return None
+        if isinstance(c.func, ast.Attribute) and nm in ("append", "pop", "popleft", "add", "remove", "extend", "update") and args is not None:
+            base = self.ev(c.func.value, env, depth)
+            if isinstance(base, list):
+                if nm == "append" and args:
+                    base.append(args[0])
+                    return None
+                if nm == "extend" and args and isinstance(args[0], list):
+                    base.extend(args[0])
+                    return None
+                if nm in ("pop", "popleft") and base:
+                    i = args[0] if args and isinstance(args[0], int) else (0 if nm == "popleft" else -1)
+                    if -len(base) <= i < len(base):
+                        return base.pop(i)
+                if nm == "remove" and args and args[0] in base:
+                    base.remove(args[0])
+                    return None
+            if isinstance(base, set) and nm == "add" and args:
+                base.add(self._hashable(args[0]))
+                return None
         if isinstance(c.func, ast.Attribute) and nm == "copy":
             v = self.ev(c.func.value, env, depth)
             if isinstance(v, list):
@@ -744,11 +803,16 @@ def _install():
             cenv[p_] = v
         for k, v in kwargs.items():
             cenv[k] = v
+        gen = _is_generator(node)
+        start = len(self.trace)
+        rv = None
         try:
             self.block(node.body, cenv, depth + 1)
         except _Return as r:
-            return r.value
-        return None
+            rv = r.value
+        if gen:
+            return self._collect_yields(start)
+        return rv
 
     def _hashable(self, v):
         if isinstance(v, Sym):
@@ -763,6 +827,11 @@ def _install():
     Interp.on_start = None
     Interp.allow_recursion = False
     Interp.prelude_len = 0
+
+
+def _is_generator(node: ast.AST) -> bool:
+    from .frontend import walk_local
+    return any(isinstance(x, (ast.Yield, ast.YieldFrom)) for x in walk_local(node))
 
 
 def _is_num(v: Any) -> bool:
